@@ -290,3 +290,179 @@ def _sumchains_head_tuple() -> Callable[[], None]:
         sa.SumAggregator._calc_at_most_on_rule = orig
 
     return undo
+
+
+# ----------------------------------------------------------------------------------------------------------------
+# KF-math-unsolvable: Goebner.remove_unneeded_formulas drops a formula because its unneeded variable occurs nowhere
+# else, without checking that the formula can always be solved for that variable over the integers
+# ('a :- b(X), X = Y*3.' -> 'a :- b(X).').  Pinned by tests/test_math_simplification.py.
+# ----------------------------------------------------------------------------------------------------------------
+@repair("math-unsolvable")
+def _math_unsolvable() -> Callable[[], None]:
+    from collections import defaultdict
+
+    import ngo.math_simplification as ms
+    from sympy import Poly
+
+    orig = ms.Goebner.remove_unneeded_formulas
+
+    def patched(self, formulas, needed_symbols):  # type: ignore[no-untyped-def]
+        var_stats = defaultdict(list)
+        for f in formulas:
+            for v in set(f.free_symbols) & set(self._fo_vars.keys()):
+                var_stats[v].append(f)
+        ret = list(formulas)
+        for v in set(var_stats.keys()) - needed_symbols:
+            if len(var_stats[v]) == 1 and var_stats[v][0] in ret:
+                f = var_stats[v][0]
+                try:
+                    poly = Poly(f, v)
+                    unit = poly.degree() == 1 and poly.coeff_monomial(v) in (1, -1)
+                except Exception:  # pylint: disable=broad-exception-caught
+                    unit = False
+                if unit:
+                    ret.remove(f)
+                else:
+                    # not always solvable over the integers: the statement has to stay as it is
+                    raise ms.SympyApi("relation is not always solvable for the eliminated variable")
+        return ret
+
+    ms.Goebner.remove_unneeded_formulas = patched
+
+    def undo() -> None:
+        ms.Goebner.remove_unneeded_formulas = orig
+
+    return undo
+
+
+# ----------------------------------------------------------------------------------------------------------------
+# KF-math-recursive-aggregate: math removes or reshapes an aggregate although the aggregate ranges over the
+# predicate the rule defines (recursion through an aggregate): 'a(X) :- p(X), N = #sum{V : a(V)}.' -> 'a(X) :- p(X).'
+# changes the number of answer sets.  The RuleDependency built in MathSimplification.__init__ is never used.
+# ----------------------------------------------------------------------------------------------------------------
+@repair("math-recursive-aggregate")
+def _math_recursive_aggregate() -> Callable[[], None]:
+    import networkx as nx
+
+    import ngo.math_simplification as ms
+    from clingo.ast import ASTType
+    from ngo.normalize import exline_arithmetic
+    from ngo.utils.ast import SIGNS, body_predicates, collect_ast, headderivable_predicates, literal_predicate
+
+    orig = ms.MathSimplification.execute
+
+    def patched(self, prg, optimize=True):  # type: ignore[no-untyped-def]
+        prg = list(prg)
+        ret = orig(self, prg, optimize)
+        base = exline_arithmetic(prg)
+        if len(ret) != len(base):
+            return ret
+        graph = nx.DiGraph()
+        for stm in base:
+            if stm.ast_type == ASTType.Rule:
+                for h in headderivable_predicates(stm):
+                    for b in body_predicates(stm, SIGNS):
+                        graph.add_edge(b.pred, h.pred)
+        out = []
+        for old, new in zip(base, ret):
+            keep_old = False
+            if old.ast_type == ASTType.Rule:
+                heads = {h.pred for h in headderivable_predicates(old)}
+                for blit in old.body:
+                    if blit.ast_type == ASTType.Literal and blit.atom.ast_type == ASTType.BodyAggregate:
+                        inside = set()
+                        for elem in blit.atom.elements:
+                            for c in elem.condition:
+                                inside.update(p.pred for p in literal_predicate(c, SIGNS))
+                        for h in heads:
+                            for p in inside:
+                                if p == h or (p in graph and h in graph and nx.has_path(graph, h, p)):
+                                    keep_old = True
+            out.append(old if keep_old else new)
+        return out
+
+    ms.MathSimplification.execute = patched
+
+    def undo() -> None:
+        ms.MathSimplification.execute = orig
+
+    return undo
+
+
+# ----------------------------------------------------------------------------------------------------------------
+# KF-math-symbolic-constant: Goebner._to_sympy_term turns every 0-ary symbol into an integer symbol, so a symbolic
+# constant ends up inside arithmetic ('Y = c, X < Y' -> '0 > (X+(-1*c))'), which clingo cannot evaluate; the
+# comparison by term order is lost.  A #const name cannot be told apart from a real constant at this point.
+# ----------------------------------------------------------------------------------------------------------------
+@repair("math-symbolic-constant")
+def _math_symbolic_constant() -> Callable[[], None]:
+    import ngo.math_simplification as ms
+    from clingo import SymbolType
+    from clingo.ast import ASTType
+
+    orig = ms.Goebner._to_sympy_term
+
+    def patched(self, t):  # type: ignore[no-untyped-def]
+        if t.ast_type == ASTType.SymbolicTerm and t.symbol.type == SymbolType.Function:
+            return None
+        if t.ast_type == ASTType.Function and not t.arguments:
+            return None
+        return orig(self, t)
+
+    ms.Goebner._to_sympy_term = patched
+
+    def undo() -> None:
+        ms.Goebner._to_sympy_term = orig
+
+    return undo
+
+
+# ----------------------------------------------------------------------------------------------------------------
+# KF-inline-circular: inline_rule inlines 'Z = t' although t mentions a variable Y that is assigned by an aggregate
+# whose elements mention Z ('foo1 :- c(Z), X = {b}, Y = {1>Z}, Z = 3*Y*X.'): the result is cyclic and unsafe.
+# ----------------------------------------------------------------------------------------------------------------
+@repair("inline-circular")
+def _inline_circular() -> Callable[[], None]:
+    import ngo.normalize as nz
+    from clingo.ast import ASTType
+    from ngo.utils.ast import collect_ast
+
+    orig_rule = nz.inline_rule
+    orig_inl = nz._inlinable
+    state: dict = {"assigned": {}}
+
+    def inline_rule(stm):  # type: ignore[no-untyped-def]
+        assigned = {}
+        if stm.ast_type in (ASTType.Rule, ASTType.Minimize):
+            for blit in stm.body:
+                if blit.ast_type == ASTType.Literal and blit.atom.ast_type == ASTType.BodyAggregate:
+                    inner = set()
+                    for elem in blit.atom.elements:
+                        inner.update(v.name for v in collect_ast(elem, "Variable"))
+                    for guard in (blit.atom.left_guard, blit.atom.right_guard):
+                        if guard is not None:
+                            for v in collect_ast(guard, "Variable"):
+                                assigned.setdefault(v.name, set()).update(inner)
+        old = state["assigned"]
+        state["assigned"] = assigned
+        try:
+            return orig_rule(stm)
+        finally:
+            state["assigned"] = old
+
+    def _inlinable(var, rest):  # type: ignore[no-untyped-def]
+        if not orig_inl(var, rest):
+            return False
+        for v in collect_ast(rest, "Variable"):
+            if var.name in state["assigned"].get(v.name, set()):
+                return False
+        return True
+
+    nz.inline_rule = inline_rule
+    nz._inlinable = _inlinable
+
+    def undo() -> None:
+        nz.inline_rule = orig_rule
+        nz._inlinable = orig_inl
+
+    return undo
